@@ -3096,7 +3096,8 @@ class Set(Collection):
             else: setdata.added = to_add  # added may be None
         added = setdata.added
         removed = setdata.removed
-        if to_remove:
+        if to_remove and reverse.is_collection:
+            # for one-to-many the pending sets were already updated by reverse_remove()
             if added: (to_remove, setdata.added) = (to_remove - added, added - to_remove)
             if removed: removed |= to_remove
             else: setdata.removed = to_remove  # removed may be None
@@ -3510,8 +3511,8 @@ class SetInstance(object):
             except:
                 for undo_func in reversed(undo_funcs): undo_func()
                 raise
+        if setdata.count is not None: setdata.count += len(new_items - setdata)
         setdata |= new_items
-        if setdata.count is not None: setdata.count += len(new_items)
         added = setdata.added
         removed = setdata.removed
         if removed: (new_items, setdata.removed) = (new_items-removed, removed-new_items)
@@ -3553,13 +3554,15 @@ class SetInstance(object):
             except:
                 for undo_func in reversed(undo_funcs): undo_func()
                 raise
+        if setdata.count is not None: setdata.count -= len(items & setdata)
         setdata -= items
-        if setdata.count is not None: setdata.count -= len(items)
-        added = setdata.added
-        removed = setdata.removed
-        if added: (items, setdata.added) = (items - added, added - items)
-        if removed: removed |= items
-        else: setdata.removed = items  # removed may be None
+        if reverse.is_collection:
+            # for one-to-many the pending sets were already updated by reverse_remove()
+            added = setdata.added
+            removed = setdata.removed
+            if added: (items, setdata.added) = (items - added, added - items)
+            if removed: removed |= items
+            else: setdata.removed = items  # removed may be None
 
         cache.modified_collections[attr].add(obj)
         cache.modified = True
